@@ -366,6 +366,37 @@ func checkC02(c *Ctx) *orch.Outcome {
 			pts = append(pts, pt)
 		}
 	}
+	// ... in particular the reads the block does outside its transaction (rate look-ups for the rolling averages go
+	// through the connection pool): the first and the last one of every call site of every special block
+	for _, b := range rm.Special {
+		prof := rm.Profiles[b]
+		first, last := map[string]int{}, map[string]int{}
+		for _, st := range prof.Stmts {
+			if st.InTx || st.Kind == "begin" || st.Kind == "commit" {
+				continue
+			}
+			if _, ok := first[st.Stratum()]; !ok {
+				first[st.Stratum()] = st.K
+			}
+			last[st.Stratum()] = st.K
+		}
+		seenK := map[int]bool{}
+		for _, mp := range []map[string]int{first, last} {
+			var sites []string
+			for site := range mp {
+				sites = append(sites, site)
+			}
+			sort.Strings(sites)
+			for _, site := range sites {
+				k := mp[site]
+				if seenK[k] || k < 1 || k > len(prof.Stmts) {
+					continue
+				}
+				seenK[k] = true
+				pts = append(pts, point{b, k, false, false, prof.Stmts[k-1], prof.Label, true})
+			}
+		}
+	}
 	// ... and because factomd fails while the block's data is fetched
 	for _, b := range rm.Special {
 		for _, k := range []int{0, -1} {
